@@ -22,7 +22,7 @@ TOGGLES = [
     "alias_scalars", "component_parameters", "component_bodies", "component_responses", "path_item_parameters",
     "same_name_two_locations", "multi_body", "multipart", "form", "octet", "text_responses", "plus_json",
     "no_content", "security", "tags", "defaults", "descriptions", "query_arrays", "header_params",
-    "cookie_params", "shared_paths", "inline_response_objects", "shuffle_decl", "media_type_params", "item_level_name_clash", "multi_media_responses", "wrapped_refs",
+    "cookie_params", "shared_paths", "inline_response_objects", "shuffle_decl", "media_type_params", "item_level_name_clash", "multi_media_responses", "wrapped_refs", "rich_form_fields", "reserved_param_names", "python_name_clash",
 ]
 
 PROP_VOCAB = [
@@ -204,11 +204,18 @@ class DocGen:
         props: dict[str, dict] = {}
         for nm in names:
             if form:
-                props[nm] = self.scalar(["string", "integer", "number", "boolean"], allow_default=False)
+                if self.on("rich_form_fields") and r.random() < 0.3:
+                    props[nm] = r.choice([{"type": "array", "items": scalar_schema(r.choice(["string", "integer"]))},
+                                          {"type": "string", "enum": ["red", "teal", "x1"]}, {"type": "string", "format": "date"}, {"type": "string", "format": "uuid"}])
+                else:
+                    props[nm] = self.scalar(["string", "integer", "number", "boolean"], allow_default=False)
             elif multipart:
                 c = r.random()
                 if c < 0.3:
                     props[nm] = {"type": "string", "format": "binary"}
+                elif self.on("rich_form_fields") and c < 0.45:
+                    props[nm] = r.choice([{"type": "string", "enum": ["red", "teal", "x1"]}, {"type": "integer", "enum": [1, 2, 3]}, {"type": "string", "format": "date"},
+                                          {"type": "string", "format": "date-time"}, {"type": "string", "format": "uuid"}])
                 elif c < 0.7:
                     props[nm] = self.scalar(["string", "integer", "number", "boolean"], allow_default=False)
                 elif c < 0.85 and self.refs_of_kind(("model",)):
@@ -655,6 +662,18 @@ class DocGen:
                 nq = r.choice([0, 1, 1, 2, 3])
                 qn = self.pick_names(QUERY_VOCAB, nq, taken)
                 taken |= {norm_key(x) for x in qn}
+                if self.on("reserved_param_names") and r.random() < 0.25:
+                    # names the generated function reserves for itself: the generator must rename the argument, the wire name stays
+                    qn.append(r.choice(["client", "url"]))
+                if self.on("python_name_clash") and qn and r.random() < 0.2:
+                    # two wire names of one location that pythonise to the same identifier
+                    base = qn[0]
+                    # only pairs whose raw names are identifiers themselves: the generator falls back to the raw names, and a raw
+                    # name like "filter.name" then yields an invalid identifier (seen; C09's subject, not claimed here)
+                    variant = {"pageSize": "page_size", "include_deleted": "includeDeleted", "fromDate": "from_date", "q": "Q", "page": "Page",
+                               "ids": "IDs", "mode": "Mode"}.get(base)
+                    if variant and norm_key(variant) == norm_key(base):
+                        qn.append(variant)
                 params.extend(self.make_param(x, "query") for x in qn)
                 if self.on("header_params"):
                     hn = self.pick_names(HEADER_VOCAB, r.choice([0, 1, 1, 2]), taken)
